@@ -24,7 +24,7 @@ TRUSTED = [
   'Kosaraju SCC partition is not modelled: the real partition is executed and its result checked',
 ]
 ASSUMPTIONS = ['self-dependence inside one block (reading a bit the same block writes) is outside the hypotheses (GenDAGPass ignores it)']
-RULE = ('cyclic designs of five kinds (false / convergent pair / convergent ring of 3-4 / divergent / update_once-in-loop) with 2-4 blocks in the cycle plus upstream and '
+RULE = ('cyclic designs of six kinds (false / convergent pair / convergent ring of 3-4 / ring of 10-14 mostly branchy blocks (cut into several meta blocks by Mamba2020) / divergent / update_once-in-loop) plus upstream and '
         'downstream blocks, random operators and widths; a case = (design, pass group); all are non-trivial; distinct by (source, flow)')
 
 def fn1(rng, w, e):
@@ -95,6 +95,26 @@ def gen_cyclic(rng, kind):
       blk([((xs[i].idx, 0, w), e)])
     blk([((out.idx, 0, w), R(xs[0]))])
     expect = 'value'
+  elif kind == 'bigring':
+    # a monotone ring of 10-14 blocks, most of them with an if/else: Mamba2020 cuts an SCC of >= 10 blocks into several
+    # meta blocks (after 5 consecutive branchy blocks, or branchiness 20); DynamicSchedulePass keeps one flat group
+    k = rng.randint(10, 14)
+    xs = [d.new_sig('', f'x{i}', w, 'wire') for i in range(k)]
+    op = rng.choice(['or', 'and'])
+    ins = [i0, i1, d.new_sig('', 'in2', w, 'in'), d.new_sig('', 'in3', w, 'in')]
+    sel = d.new_sig('', 'sel', k, 'in')
+    order = list(range(k)); rng.shuffle(order)
+    p_br = rng.choice([0.5, 0.8, 1.0])
+    for i in order:
+      nxt = R(xs[(i + 1) % k])
+      e = ('b', op, w, nxt, R(ins[i % 4]))
+      if rng.random() < p_br:
+        e2 = ('b', op, w, nxt, R(ins[(i + 1) % 4])) if rng.random() < 0.7 else nxt
+        blk([((xs[i].idx, 0, w), ('m', R(sel, i, 1), e, e2))], styles={0: 'ifelse'})
+      else:
+        blk([((xs[i].idx, 0, w), e)])
+    blk([((out.idx, 0, w), R(xs[rng.randrange(k)]))])
+    expect = 'value'
   elif kind == 'div':
     a = d.new_sig('', 'a', w, 'wire'); b = d.new_sig('', 'b', w, 'wire')
     if rng.random() < 0.5:
@@ -149,7 +169,7 @@ def run(ck):
   n = 250 if ck.tier == 'quick' else 8000
   lines, meta = [], []
   for _ in range(n):
-    kind = rng.choice(['false', 'false', 'conv', 'ring', 'ring', 'div', 'divcond'])
+    kind = rng.choice(['false', 'false', 'conv', 'ring', 'ring', 'div', 'divcond', 'bigring'])
     d, expect = gen_cyclic(rng, kind)
     src = d.source()
     ck.extra_cov.setdefault('sample_design_source', src)
@@ -169,7 +189,13 @@ def run(ck):
     ref = rtlgen.RefSim(d) if kind == 'false' else None
     for flow in ['default', 'mamba']:
       ck.count({'src_hash': hash(src) & 0xffffffff, 'flow': flow}, True); ck.hist('flow', flow)
-      rs = rtlgen.RealSim(cls, d, flow)
+      try:
+        rs = rtlgen.RealSim(cls, d, flow)
+      except Exception as e:
+        # neither a settled value nor a reported cycle: the pass group itself failed on a legal cyclic design
+        ck.violation('pass-group-failed-on-cyclic-design', {'flow': flow, 'kind': kind, 'error': type(e).__name__}, {'source': src, 'flow': flow},
+                     {'error': f'{type(e).__name__}: {str(e)[:300]}', 'oracle': 'a cyclic group is either iterated to a fixed point or reported with UpblkCyclicError when simulated'})
+        continue
       entries = rtlgen.model_entries(rs)
       scc_ids = next((e[1] for e in entries if e[0] == 'scc'), None)
       if scc_ids is None:
@@ -206,7 +232,7 @@ def run(ck):
       if kind == 'div' and status == 'ok':
         ck.violation('divergent-loop-returned', {'flow': flow}, {'source': src, 'flow': flow, 'inputs': cycles, 'signals': [s_.path for s_ in d.sigs]},
                      {'trace': trace[:2], 'oracle': 'a loop with no stable assignment must raise UpblkCyclicError'})
-      if kind in ('false', 'conv', 'ring') and status != 'ok':
+      if kind in ('false', 'conv', 'ring', 'bigring') and status != 'ok':
         ck.violation('convergent-loop-rejected', {'flow': flow, 'kind': kind}, {'source': src, 'flow': flow, 'inputs': cycles, 'signals': [s_.path for s_ in d.sigs]}, {'status': status})
       lines.append(rtlgen.model_sim_line(d, entries, [], cycles))
       meta.append(('sim', d, src, flow, entries, cycles, trace, status))
